@@ -3,9 +3,16 @@ Lemmas/IPSetFaithful.lean — the IPSet model takes `a in b` between two network
 interval form (`netIn`); this file proves that form equal to the code's own spelling of
 `IPNetwork.__contains__` (shift-compare, `Model/Contains.lean`, property C04) on all
 in-range networks, so the substitution in Model/IPSet.lean loses nothing.
+
+Likewise `_compact_single_network` calls `added_network.supernet()`, `.previous()` and
+`.next()`; the IPSet model spells them out with local arithmetic (`supernetAt`, the merge
+loop's candidate `candOf`).  `cand_eq_step` and `supernet_eq` prove these spellings equal to
+the modelled methods of Model/Subnet.lean (C11) — error branches included — on every good key.
 -/
 import NetaddrVerif.Model.IPSet
 import NetaddrVerif.Lemmas.C04L
+import NetaddrVerif.Lemmas.IPSetL3
+import NetaddrVerif.Props.C11
 namespace NV.IPSet
 open NV NV.Contains
 
@@ -24,5 +31,128 @@ theorem netIn_eq_netContains (a b : Net) (ha : a.WF) (hb : b.WF) :
   · exact absurd (hi.2 (hh.1 h2)) (by simp [h1])
   · exact absurd (hh.2 (hi.1 h1)) (by simp [h2])
   · rfl
+
+/-- on a good key the host-bit-free copy taken by `next()` / `previous()` is the key itself -/
+theorem netCopy_good (a : Net) (ha : Good a) : Subnet.netCopy a = a := by
+  obtain ⟨_, hfirst⟩ := ha
+  have hnet : netNetwork (width a.ver) a.val a.plen = a.val := hfirst.symm
+  unfold Subnet.netCopy; rw [hnet]
+
+/-- **the merge loop's candidate is `previous()` / `next()`** of the modelled `IPNetwork`
+    methods (Model/Subnet.lean, C11): on every good key with a non-zero prefix the call the
+    Python code makes (`previous()` when the block's own bit is set, else `next()`, both with
+    the default step 1) returns — it cannot raise IndexError — and returns exactly the
+    network `candOf a` the IPSet model looks up. -/
+theorem cand_eq_step (a : Net) (ha : Good a) (hp : 1 ≤ a.plen) :
+    (if (a.val >>> (width a.ver - a.plen)) % 2 = 1 then Subnet.previous a 1 else Subnet.next a 1)
+      = .ok (candOf a) := by
+  have hcopy := netCopy_good a ha
+  have hal := good_aligned a ha
+  obtain ⟨⟨hver, hv, hpl⟩, hfirst⟩ := ha
+  have hnet : netNetwork (width a.ver) a.val a.plen = a.val := hfirst.symm
+  have hsz := Subnet.netSize_eq (width a.ver) a.val a.plen hv
+  have hW := pw (width a.ver)
+  generalize hwd : width a.ver = w at *
+  generalize hkd : w - a.plen = k at *
+  have hk : 0 < 2 ^ k := pw k
+  have ew : 2 ^ w = 2 ^ k * 2 ^ a.plen := by
+    rw [← Nat.pow_add]; congr 1; omega
+  have ep : 2 ^ a.plen = 2 * 2 ^ (a.plen - 1) := by
+    have : a.plen = (a.plen - 1) + 1 := by omega
+    rw [this, Nat.pow_succ]; simp; omega
+  obtain ⟨q, hq⟩ := Nat.dvd_of_mod_eq_zero hal
+  have hqlt : q < 2 ^ a.plen := by
+    have : 2 ^ k * q < 2 ^ k * 2 ^ a.plen := by rw [← hq, ← ew]; exact hv
+    exact Nat.lt_of_mul_lt_mul_left this
+  have hbit : (a.val >>> k) % 2 = q % 2 := by
+    rw [Nat.shiftRight_eq_div_pow, hq, Nat.mul_div_cancel_left _ hk]
+  unfold candOf
+  rw [hwd, hkd, hnet]
+  by_cases hb : (a.val >>> k) % 2 = 1
+  · rw [if_pos hb, if_pos hb]
+    have hq1 : q % 2 = 1 := by rw [← hbit]; exact hb
+    have hge : 2 ^ k ≤ a.val := by rw [hq]; exact Nat.le_mul_of_pos_right _ (by omega)
+    unfold Subnet.previous Subnet.isub
+    rw [hcopy]
+    simp only [hwd, hsz, hnet, maxInt]
+    generalize 2 ^ k = S at *
+    generalize 2 ^ w = W at *
+    have c1 : ¬ ((a.val : Int) - (S : Int) * 1 < 0) := by omega
+    have c2 : ¬ ((a.val : Int) - (S : Int) * 1 + ((S : Int) - 1) > ((W - 1 : Nat) : Int)) := by omega
+    rw [if_neg c1, if_neg c2]
+    congr 2
+    omega
+  · rw [if_neg hb, if_neg hb]
+    have hq0 : q % 2 = 0 := by
+      have := Nat.mod_two_eq_zero_or_one q; rw [hbit] at hb; omega
+    have hle : a.val + 2 ^ k + 2 ^ k ≤ 2 ^ w := by
+      have : q + 2 ≤ 2 ^ a.plen := by omega
+      calc a.val + 2 ^ k + 2 ^ k = 2 ^ k * (q + 2) := by rw [hq, Nat.mul_add]; omega
+        _ ≤ 2 ^ k * 2 ^ a.plen := Nat.mul_le_mul_left _ this
+        _ = 2 ^ w := ew.symm
+    unfold Subnet.next Subnet.iadd
+    rw [hcopy]
+    simp only [hwd, hsz, hnet, maxInt]
+    generalize 2 ^ k = S at *
+    generalize 2 ^ w = W at *
+    have c1 : ¬ ((a.val : Int) + (S : Int) * 1 + ((S : Int) - 1) > ((W - 1 : Nat) : Int)) := by omega
+    have c2 : ¬ ((a.val : Int) + (S : Int) * 1 < 0) := by omega
+    rw [if_neg c1, if_neg c2]
+    congr 2
+    omega
+
+/-- in particular neither call raises inside the merge loop -/
+theorem step_no_error (a : Net) (ha : Good a) (hp : 1 ≤ a.plen) :
+    ((a.val >>> (width a.ver - a.plen)) % 2 = 1 → Subnet.previous a 1 = .ok (candOf a)) ∧
+    (¬ (a.val >>> (width a.ver - a.plen)) % 2 = 1 → Subnet.next a 1 = .ok (candOf a)) := by
+  have h := cand_eq_step a ha hp
+  constructor
+  · intro hb; rw [if_pos hb] at h; exact h
+  · intro hb; rw [if_neg hb] at h; exact h
+
+/-- `added_network.supernet()` (default `prefixlen=0`) of the modelled method is the list of
+    the model's `supernetAt a q`, `q = 0 … plen-1`, in that order — for every network whose
+    prefix is within the width (no host-bit condition needed) -/
+theorem supernet_eq_of_le (a : Net) (hpl : a.plen ≤ width a.ver) :
+    Subnet.supernet a 0 = .ok ((List.range a.plen).map (supernetAt a)) := by
+  unfold Subnet.supernet
+  have hg : (0 ≤ (0 : Int) ∧ (0 : Int) ≤ (width a.ver : Nat)) := by omega
+  rw [if_neg (fun h => h hg)]
+  rw [Subnet.supernetLoop_le a.ver (width a.ver) _ a.plen _ (0 : Int).toNat [] rfl (by simp) hpl]
+  simp only [List.nil_append, Int.toNat_zero, Nat.sub_zero, List.range_eq_range']
+  rfl
+
+/-- **the `/width` path's `for supernet in added_network.supernet()` loop** visits exactly the
+    keys `supernetAt a q`, `q < plen`, that `compactSingle` looks up -/
+theorem supernet_eq (a : Net) (ha : Good a) :
+    Subnet.supernet a 0 = .ok ((List.range a.plen).map (supernetAt a)) :=
+  supernet_eq_of_le a ha.1.2.2
+
+/-- the `for potential_supernet in added_network.supernet(): if potential_supernet in
+    self._cidrs` walk, run over the modelled method's own result list, is the test
+    `compactSingle` makes -/
+theorem supernet_walk (s : St) (a : Net) (ha : Good a) :
+    ∃ l, Subnet.supernet a 0 = .ok l ∧
+      l.any (fun c => dMem s c) = (List.range a.plen).any (fun q => dMem s (supernetAt a q)) :=
+  ⟨_, supernet_eq a ha, by rw [List.any_map]; rfl⟩
+
+/-- the same list in the closed form of `C11.supernet_spec`: on a good key each visited
+    supernet is the floor of the key's value to the `/q` grid -/
+theorem supernetAt_good (a : Net) (ha : Good a) (q : Nat) (hq : q < a.plen) :
+    supernetAt a q = ⟨a.ver, a.val / 2 ^ (width a.ver - q) * 2 ^ (width a.ver - q), q⟩ := by
+  have h := (C11.supernet_spec a ha.1 0).2 (by omega) (by omega)
+  rw [supernet_eq a ha] at h
+  simp only [Int.toNat_zero, Nat.sub_zero, ← List.range_eq_range'] at h
+  have h2 := Except.ok.inj h
+  have h3 := List.map_inj_left.1 h2 q (List.mem_range.2 hq)
+  exact h3
+
+/-- a concrete instance of the hypotheses: 192.0.2.128/25 is a good key with `1 ≤ plen` -/
+example : Good ⟨4, 0xC0000280, 25⟩ ∧ 1 ≤ (⟨4, 0xC0000280, 25⟩ : Net).plen :=
+  ⟨⟨⟨Or.inl rfl, by decide +kernel, by decide +kernel⟩, by decide +kernel⟩, by decide⟩
+example : Subnet.previous ⟨4, 0xC0000280, 25⟩ 1 = .ok (candOf ⟨4, 0xC0000280, 25⟩) := by decide +kernel
+example : Subnet.next ⟨4, 0xC0000200, 25⟩ 1 = .ok (candOf ⟨4, 0xC0000200, 25⟩) := by decide +kernel
+example : Subnet.supernet ⟨4, 0xC0000280, 25⟩ 0 =
+    .ok ((List.range 25).map (supernetAt ⟨4, 0xC0000280, 25⟩)) := by decide +kernel
 
 end NV.IPSet
